@@ -231,6 +231,28 @@ def run(ck):
           "%s%s: the placement loop assumes neighbours in the list are neighbours in the address space; with several forbidden intervals a "
           "chain is laid across a hole of the destination" % (why6, "" if wedge_in else "; the wedges are not part of the sorted list"))
 
+    # ---------------------------------------------------------------- R7 in-block offsets
+    ck.rule("R7", "assemble_block advances the in-block offset by the length of EVERY line (instructions and raw data alike) on every path", floor=1)
+    fn = m.func("assemble_block")
+    cfg7 = CFG(fn)
+    from sa.pathob import undischarged as _und7, path_text as _pt7
+    lps = [nd for nd in cfg7.nodes if nd.kind == "for" and norm(nd.ast.iter).endswith(".lines")]
+    ck.need(lps, "assemble_block: loop over the block's lines not found")
+    L7 = lps[0]
+    line = norm(L7.ast.target)
+    cursors = set(norm(n.target) for n in walk_body(fn) if isinstance(n, ast.AugAssign) and isinstance(n.op, ast.Add) and isinstance(n.target, ast.Name))
+
+    def advances(nd):
+        a = nd.ast
+        if nd.kind != "stmt" or not isinstance(a, ast.AugAssign) or not isinstance(a.op, ast.Add) or norm(a.target) not in cursors:
+            return False
+        v = norm(a.value).replace(" ", "")
+        return v in ("%s.l" % line, "len(%s.data)" % line, "len(%s.b)" % line) or v.startswith("len(")
+    p7 = _und7(cfg7, advances, start=(L7.id, "iter"), targets=[L7.id])
+    ck.ob("R7", "assemble_block:every-line-advances-the-offset", p7 is None, m.where(L7.ast),
+          "a line of the block can be passed without advancing the in-block offset (path: %s): the lines after it get offsets that are too "
+          "small, and pc-relative references in them are encoded against the wrong address" % (_pt7(p7) if p7 else ""))
+
     # ---------------------------------------------------------------- R2
     fn = m.func("asm_resolve_final")
     cfg = CFG(fn)
